@@ -63,6 +63,8 @@ type Run struct {
 	notes      []string
 	broken     []string // machinery failures
 	OnlySig    string   // --replay of a stored violation: only this signature counts
+	hangs      int      // calls of the real code that did not return within their deadline (each costs the whole deadline)
+	Level      string   // the level the check claims (for an early Finish)
 }
 
 func NewRun(id string) *Run {
@@ -182,6 +184,18 @@ func (r *Run) Mismatch(sig, what string, replay any) {
 			fmt.Printf("KNOWN-FINDING: property=%s sig=%s %s [e.g. %s]\n", r.ID, sig, f.Text, what)
 		}
 		return
+	}
+	if strings.Contains(sig, "hang") || strings.Contains(sig, "does-not-return") {
+		// a call that does not return costs its whole deadline: once a dozen of them are on record the verdict stands
+		// and the run ends (a change that makes every massive-mode call hang would otherwise keep the check busy for hours)
+		r.hangs++
+		if r.hangs >= 12 && len(r.violations) > 0 {
+			fmt.Printf("NOTE property=%s: %d calls did not return within their deadline; the run ends here with the violations reported so far\n", r.ID, r.hangs)
+			r.counters["ended_early_after_hangs"] = r.hangs
+			r.mu.Unlock()
+			code := r.Finish(r.Level)
+			os.Exit(code)
+		}
 	}
 	if _, seen := r.violations[sig]; seen {
 		r.counters["violation_instances"]++
